@@ -626,6 +626,32 @@ fn alias_ratio(kl: f64, tol: f64, amp_l: f64) -> f64 {
   best
 }
 
+/// the same indicator for the nested 2-D adaptive rule on `g(x)·h(y)`: the inner integrals (over `y`, at fixed `x`) have
+/// amplitude `|g(x)||A_h|`, the outer integrand `g(x)·I_h` has amplitude `|A_g||I_h|`. For a polynomial `g` with an
+/// oscillatory `h` the inner amplitude goes through zero: reported as 0 (always inside the recorded region).
+fn alias_ratio_2d(g: &I1, h: &I1, ax: f64, bx: f64, ay: f64, by: f64, tol: f64) -> f64 {
+  let (lx, ly) = ((bx - ax).abs(), (by - ay).abs());
+  let inner = match (g, h) {
+    (I1::Exp { amp: ag, .. }, I1::Exp { amp: ah, .. }) => alias_ratio(h.kl(ay, by), tol, ag.norm() * ah.norm() * ly),
+    (_, I1::Exp { .. }) => 0.,
+    _ => f64::INFINITY,
+  };
+  let outer = match g {
+    I1::Exp { amp: ag, .. } => alias_ratio(g.kl(ax, bx), tol, ag.norm() * lx * h.exact(ay, by).norm()),
+    _ => f64::INFINITY,
+  };
+  inner.min(outer)
+}
+
+/// the product-of-1-D-integrals comparison also involves the two 1-D calls (full amplitude)
+fn alias_ratio_sep(g: &I1, h: &I1, ax: f64, bx: f64, ay: f64, by: f64, tol: f64) -> f64 {
+  let one = |f: &I1, a: f64, b: f64| match f {
+    I1::Exp { amp, .. } => alias_ratio(f.kl(a, b), tol, amp.norm() * (b - a).abs()),
+    _ => f64::INFINITY,
+  };
+  alias_ratio_2d(g, h, ax, bx, ay, by, tol).min(one(g, ax, bx)).min(one(h, ay, by))
+}
+
 fn method_tol(m: &Integrator) -> f64 {
   match m {
     Integrator::AdaptiveSimpson { tolerance, .. } | Integrator::GaussKonrod { tolerance, .. } | Integrator::ClenshawCurtis { tolerance } => *tolerance,
@@ -706,6 +732,7 @@ pub fn run(ctx: &mut Ctx) {
     s_switch_sweep(ctx, cap);
     s_extreme_intervals(ctx, cap);
     s_adaptive_tight(ctx, cap);
+    s_adaptive2d_depth(ctx, cap);
     s_param_scans(ctx, cap);
     s_gl_ascending(ctx, cap);
     s_history(ctx, cap);
@@ -1183,8 +1210,8 @@ fn s_methods_2d(ctx: &mut Ctx, cap: Duration) {
     let f = I2::Sep(g.clone(), h.clone());
     let sc = f.scale(ax, bx, ay, by);
     let inp = format!(
-      "{} ax={:e} bx={:e} ay={:e} by={:e} kl={:.3} g={} h={}",
-      method_name(&m), ax, bx, ay, by, g.kl(ax, bx).max(h.kl(ay, by)), g.describe(), h.describe()
+      "{} ax={:e} bx={:e} ay={:e} by={:e} kl={:.3} alias={:.3e} g={} h={}",
+      method_name(&m), ax, bx, ay, by, g.kl(ax, bx).max(h.kl(ay, by)), alias_ratio_2d(&g, &h, ax, bx, ay, by, method_tol(&m)), g.describe(), h.describe()
     );
     let (r2, t2, ev2) = call2(cap, m, &f, ax, bx, ay, by);
     let outer = OUTER_EVALS.load(Ordering::Relaxed).max(1);
@@ -1241,8 +1268,48 @@ fn s_methods_2d(ctx: &mut Ctx, cap: Duration) {
         Res::Panic => format!("{}2d/separable/panic", short(&m)),
         _ => format!("{}2d/not-separable{}", short(&m), if in_class { "/in-class" } else { "" }),
       },
-      &format!("{} reldiff={:e} budget={:e}", inp, diff, budget / sc),
+      &format!(
+        "{} reldiff={:e} budget={:e}",
+        inp.replacen(
+          &format!("alias={:.3e}", alias_ratio_2d(&g, &h, ax, bx, ay, by, method_tol(&m))),
+          &format!("alias={:.3e}", alias_ratio_sep(&g, &h, ax, bx, ay, by, method_tol(&m))),
+          1
+        ),
+        diff,
+        budget / sc
+      ),
     );
+    // all four orientations: reversing one range negates, reversing both restores the forward value
+    if let Res::Val(v2) = r2 {
+      for (rx, ry) in [(true, false), (false, true), (true, true)] {
+        let (x0, x1) = if rx { (bx, ax) } else { (ax, bx) };
+        let (y0, y1) = if ry { (by, ay) } else { (ay, by) };
+        let (rr, tr, _) = call2(cap, m, &f, x0, x1, y0, y1);
+        let which = match (rx, ry) {
+          (true, false) => "x",
+          (false, true) => "y",
+          _ => "xy",
+        };
+        if matches!(rr, Res::Timeout) {
+          ctx.s("C12.time", false, &format!("{}2d/timeout", short(&m)), &format!("{} reversed={} cap_s={} elapsed_s={:.2}", inp, which, cap.as_secs(), tr));
+          continue;
+        }
+        let want = if rx ^ ry { -v2 } else { v2 };
+        let okr = match rr {
+          Res::Val(w) => (w - want).norm() <= 1e-12 * sc + 2. * allow2,
+          _ => false,
+        };
+        ctx.s(
+          "C12.reverse",
+          okr,
+          &match rr {
+            Res::Panic => format!("{}2d/reverse-{}/panic", short(&m), which),
+            _ => format!("{}2d/reverse-{}", short(&m), which),
+          },
+          &format!("{} forward=({:e},{:e}) reversed_{}={}", inp, v2.re, v2.im, which, rr.val().map(|w| format!("({:e},{:e})", w.re, w.im)).unwrap_or(rr.tag().into())),
+        );
+      }
+    }
     // 2-D accuracy against the closed form
     if let Res::Val(v2) = r2 {
       let exact = f.exact(ax, bx, ay, by);
@@ -1703,5 +1770,55 @@ fn s_adaptive_tight(ctx: &mut Ctx, cap: Duration) {
     let k = kl / (b - a) * if ctx.rng.coin() { 1. } else { -1. };
     let f = I1::Exp { k, amp: C::from_polar(1., ctx.rng.range(0., 6.28)) };
     acc1(ctx, cap, m, &f, a, b, i % 2 == 1, "tight");
+  }
+}
+
+/// AdaptiveSimpson in 2-D at a moderate `max_depth` (12 … 24) that the fast variable needs most of: with the fast
+/// oscillation in the inner (y) or the outer (x) variable the 2-D integral of `g(x)h(y)` is the product of the 1-D
+/// integrals (same tolerance, same depth) and the closed form, within the requested tolerance
+fn s_adaptive2d_depth(ctx: &mut Ctx, cap: Duration) {
+  let combos = [(1e-6, 12usize), (1e-9, 18), (1e-11, 20), (1e-6, 14), (1e-9, 24), (1e-8, 16)];
+  let n = if ctx.thorough { 36 } else { 8 };
+  for i in 0..n {
+    let (tolerance, max_depth) = combos[i % combos.len()];
+    let m = Integrator::AdaptiveSimpson { tolerance, max_depth };
+    let (ax, bx) = (ctx.rng.range(-1.5, -0.5), ctx.rng.range(0.5, 1.5));
+    let (ay, by) = (ctx.rng.range(-2., -1.), ctx.rng.range(0.5, 1.5));
+    let fast_kl = ctx.rng.range(120., 200.);
+    let slow_kl = ctx.rng.range(0.5, 3.);
+    let fast_inner = i % 2 == 0;
+    let (klx, kly) = if fast_inner { (slow_kl, fast_kl) } else { (fast_kl, slow_kl) };
+    let g = I1::Exp { k: klx / (bx - ax), amp: C::from_polar(1., ctx.rng.range(0., 6.28)) }.normalised(ax, bx);
+    let h = I1::Exp { k: -kly / (by - ay), amp: C::from_polar(1., ctx.rng.range(0., 6.28)) }.normalised(ay, by);
+    let f = I2::Sep(g.clone(), h.clone());
+    let sc = f.scale(ax, bx, ay, by);
+    let (r2, t2, ev2) = call2(cap, m, &f, ax, bx, ay, by);
+    let inp = format!(
+      "{} ctx=depth fast={} ax={:e} bx={:e} ay={:e} by={:e} kl={:.3} alias={:.3e} evals={} g={} h={}",
+      method_name(&m), if fast_inner { "inner" } else { "outer" }, ax, bx, ay, by, fast_kl,
+      alias_ratio_2d(&g, &h, ax, bx, ay, by, tolerance), ev2, g.describe(), h.describe()
+    );
+    ctx.count(&format!("depth/adaptive2d/{}", r2.tag()));
+    if matches!(r2, Res::Timeout) {
+      ctx.s("C12.time", false, "adaptive2d/timeout", &format!("{} cap_s={} elapsed_s={:.2}", inp, cap.as_secs(), t2));
+      continue;
+    }
+    let (rg, _, _) = call1(cap, m, &g, ax, bx);
+    let (rh, _, _) = call1(cap, m, &h, ay, by);
+    if let (Res::Val(v2), Res::Val(vg), Res::Val(vh)) = (r2, rg, rh) {
+      let lx = (bx - ax).abs();
+      let allow2 = tolerance * (lx + 1.) * sc.max(1.);
+      let budget = 1e-12 * sc + allow2 + tolerance * (g.scale(ax, bx) + h.scale(ay, by)) + tolerance * tolerance;
+      let inp_sep = inp.replacen(
+        &format!("alias={:.3e}", alias_ratio_2d(&g, &h, ax, bx, ay, by, tolerance)),
+        &format!("alias={:.3e}", alias_ratio_sep(&g, &h, ax, bx, ay, by, tolerance)),
+        1,
+      );
+      ctx.s("C12.separable", (v2 - vg * vh).norm() <= budget, "adaptive2d/not-separable", &format!("{} reldiff={:e} budget={:e}", inp_sep, (v2 - vg * vh).norm() / sc, budget / sc));
+      let ex = f.exact(ax, bx, ay, by);
+      ctx.s("C12.accuracy", (v2 - ex).norm() <= 1e-12 * sc + allow2, "adaptive2d/inaccurate", &format!("{} relerr={:e} allow={:e}", inp, (v2 - ex).norm() / sc, allow2 / sc));
+    } else {
+      ctx.s("C12.separable", false, "adaptive2d/separable/panic", &inp);
+    }
   }
 }
